@@ -432,11 +432,20 @@ func init() {
 		requests := []string{"process.RemoteSpawn", "process.RemoteSpawnRegister", "node.Spawn", "node.ApplicationStart"}
 		for _, fname := range []string{"all", "no-spawn", "no-start", "no-neither"} {
 			for _, table := range tables {
-				for _, expose := range []int{0, 1, 2, 3, 4} {
+				for _, expose := range []int{0, 1, 2, 3, 4, 5} {
 					for _, req := range requests {
 						fname, table, expose, req := fname, table, expose, req
 						// expose == 4: a hostile requester that ignores the flags the acceptor announced (the
 						// requester's copy of the peer's flags is overwritten): the acceptor's own check must hold
+						// expose == 5: the requester forges the node of the parent process in a spawn request, naming a
+						// node for which the name is enabled (it is not enabled for the requester itself)
+						forged := expose == 5
+						if forged {
+							expose = 0
+							if fname != "all" || table != "for-other" || req != "node.Spawn" {
+								continue
+							}
+						}
 						hostile := expose == 4
 						if hostile {
 							expose = 0
@@ -447,7 +456,7 @@ func init() {
 						flagsB := flagSets[fname]
 						isStart := req == "node.ApplicationStart"
 						r.Executions++
-						desc := fmt.Sprintf("%s, B's flags %s, table %s, exposure spawn=%v start=%v, requester ignores the peer's flags: %v", req, fname, table, expose&1 != 0, expose&2 != 0, hostile)
+						desc := fmt.Sprintf("%s, B's flags %s, table %s, exposure spawn=%v start=%v, requester ignores the peer's flags: %v, forges the parent's node: %v", req, fname, table, expose&1 != 0, expose&2 != 0, hostile, forged)
 						c15mu.Lock()
 						c15Spawned = nil
 						c15mu.Unlock()
@@ -502,6 +511,13 @@ func init() {
 								*(*gen.NetworkFlags)(unsafe.Pointer(f.UnsafeAddr())) = gen.NetworkFlags{Enable: true, EnableRemoteSpawn: true, EnableRemoteApplicationStart: true}
 							}
 							nw.ex.Thread("REQ", func() {
+								if forged {
+									// the requester claims that the parent process lives on a node that IS allowed
+									other := gen.PID{Node: "other@localhost", ID: 1001, Creation: nw.a.n.creation}
+									_, reqErr = nw.pa.RemoteSpawn("rproc", gen.ProcessOptionsExtra{ParentPID: other, ParentLeader: other})
+									done = true
+									return
+								}
 								switch req {
 								case "process.RemoteSpawn", "process.RemoteSpawnRegister":
 									nw.a.n.Send(nw.a.pids["R"], doMsg{func(p *probe) error {
